@@ -130,14 +130,15 @@ def short(v):
     return s if len(s) < 300 else s[:300] + "..."
 
 
-def build_file(x, nodes, rng):
+def build_file(x, nodes, rng, wide=False):
     tables, fobjs, lay = E.plan_tables(nodes, ntables_free=set(x["free"]), stale=set(x["stale"]), newer_first=x["newerFirst"],
                                        pad_rng=rng if rng.random() < 0.5 else None, flag_rng=rng if rng.random() < 0.6 else None,
-                                       far=rng.choice([0, 0, 0, (1 << 32) + 0x5000, (3 << 32) + 0x1000]))   # objects beyond 4 GiB
+                                       far=rng.choice([0x20000, (1 << 32) + 0x5000] if wide else [0, 0, 0, (1 << 32) + 0x5000, (3 << 32) + 0x1000]))   # objects beyond 4 GiB
     hi, lo = rng.choice([(9, 4), (0x9000, 5), (0xFFFF, 1), (0x8001, 0), (2, 1)])
     seqs = (hi, lo) if x["hdr"] == 1 else (lo, hi)
     # key tables and file objects may be listed in a chain of object tables (any distribution, any order)
-    return E.build(tables, fobjs, hdr_seqs=seqs, chain=rng.choice([1, 1, 2, 3]), chain_rng=rng if rng.random() < 0.7 else None)
+    return E.build(tables, fobjs, hdr_seqs=seqs, chain=rng.choice([1, 1, 2, 3]), chain_rng=rng if rng.random() < 0.7 else None,
+                   alignment=rng.choice([0x1000, 0x1000, 0x200, 0x10000, 0x100, 0x800]))
 
 
 def run(ctx):
@@ -198,17 +199,19 @@ def random_trees(ctx, rng, n):
     from harness import tracecheck
     runs = []
     for tid in range(1, n + 1):
-        K = rng.randrange(4, 15)
+        wide = tid % 10 == 0    # several hundred key tables: the object table(s) list more objects than one page holds
+        K = rng.randrange(240, 420) if wide else rng.randrange(4, 15)
+        NT = rng.randrange(230, K) if wide else 3
         parent = [0] + [rng.choice([0] + list(range(1, k))) for k in range(2, K + 1)]
         inner = sorted({p for p in parent if p})
         inner += [k for k in range(1, K + 1) if k not in inner and rng.random() < 0.15]
-        x = {"parent": parent, "inner": sorted(set(inner)), "tbl": [rng.randrange(1, 4) for _ in range(K)], "stale": sorted(rng.sample([1, 2, 3], rng.randrange(0, 3))),
-             "free": sorted(rng.sample([1, 2, 3], rng.randrange(0, 3))), "hdr": rng.choice([1, 2]), "newerFirst": rng.random() < 0.5}
+        x = {"parent": parent, "inner": sorted(set(inner)), "tbl": [rng.randrange(1, NT + 1) for _ in range(K)], "stale": sorted(rng.sample(range(1, NT + 1), rng.randrange(0, 3))),
+             "free": sorted(rng.sample(range(1, NT + 1), rng.randrange(0, 3))), "hdr": rng.choice([1, 2]), "newerFirst": rng.random() < 0.5}
         nodes = make_nodes({**x, "parent": {i + 1: p for i, p in enumerate(parent)}, "tbl": {i + 1: t for i, t in enumerate(x["tbl"])}}, rng)
         for nd in nodes:
             nd["key"] = f"n{nd['id']}-" + nd["key"]
         try:
-            hf = decode_real(build_file(x, nodes, rng))
+            hf = decode_real(build_file(x, nodes, rng, wide=wide))
             decoded, ghost = [], False
 
             def walk(entries, pid):
